@@ -17,6 +17,7 @@ T16 == TU(16)
 TP == TTup(<<T8, T8>>)
 TO == TOpt(T16)
 TE == TEither(T8, T16)
+TN == TTup(<<T8, TTup(<<T16, T8>>)>>)            \* a tuple nested BEHIND an earlier component
 U8(n) == VU(BitsOfNat(n, 8))
 U16(n) == VU(BitsOfNat(n, 16))
 A(e) == SExpr(AssertE(e))
@@ -41,20 +42,29 @@ Uses(ty, w) ==
                     [d |-> "f", ss |-> <<SExpr(EMatch(EWit(w), <<Arm(MLeft("l", T8), AssertE(JetE("eq_8", <<V("l"), Dec(5)>>))),
                                                                  Arm(MRight("r", T16), AssertE(JetE("eq_16", <<V("r"), Dec(513)>>)))>>))>>]>>
 
+UsesN(w) ==
+  <<[d |-> "u", ss |-> <<SLet(PId("unused"), TN, EWit(w))>>],
+    [d |-> "p", ss |-> <<SLet(PTup(<<PId("p"), PIgn>>), TN, EWit(w)), Eq8(V("p"), Dec(5))>>],
+    [d |-> "p", ss |-> <<SLet(PTup(<<PIgn, PTup(<<PId("m"), PIgn>>)>>), TN, EWit(w)), Eq16(V("m"), Dec(513))>>],
+    [d |-> "f", ss |-> <<SLet(PTup(<<PId("p"), PTup(<<PId("m"), PId("q")>>)>>), TN, EWit(w)),
+                         Eq8(V("p"), Dec(5)), Eq16(V("m"), Dec(513)), Eq8(V("q"), Dec(9))>>]>>
+
 ValsOf(ty) ==
-  CASE ty = TP -> <<VTup(<<U8(5), U8(9)>>), VTup(<<U8(5), U8(8)>>), VTup(<<U8(0), U8(9)>>)>>
+  CASE ty = TN -> <<VTup(<<U8(5), VTup(<<U16(513), U8(9)>>)>>), VTup(<<U8(9), VTup(<<U16(513), U8(5)>>)>>),
+                    VTup(<<U8(5), VTup(<<U16(2309), U8(9)>>)>>)>>
+    [] ty = TP -> <<VTup(<<U8(5), U8(9)>>), VTup(<<U8(5), U8(8)>>), VTup(<<U8(0), U8(9)>>)>>
     [] ty = TO -> <<VSome(U16(513)), VNone, VSome(U16(2))>>
     [] ty = TE -> <<VLeft(U8(5)), VRight(U16(513)), VLeft(U8(6)), VRight(U16(7))>>
 
 Names == <<"A", "B", "C">>
-ShFamilies == {[ty |-> t, n |-> k] : t \in {TP, TO, TE}, k \in {2, 3}}
+ShFamilies == {[ty |-> t, n |-> k] : t \in {TP, TO, TE, TN}, k \in {2, 3}}
 
 \* all sequences of k use indices
 RECURSIVE IdxSeqs(_, _)
 IdxSeqs(k, m) == IF k = 0 THEN {<<>>} ELSE {<<i>> \o s : i \in 1..m, s \in IdxSeqs(k - 1, m)}
 
 ShProgramsOf(f) ==
-  LET us(w) == Uses(f.ty, w)
+  LET us(w) == IF f.ty = TN THEN UsesN(w) ELSE Uses(f.ty, w)
       m == Len(us("A"))
       vs == ValsOf(f.ty)
       pts == {[i \in 1..f.n |-> vs[c[i]]] : c \in IdxSeqs(f.n, Len(vs))}
